@@ -2,10 +2,12 @@ CHECK = dict(
     harness="c17_index.cpp",
     sources=[],   # multidim_index_sequence.h, for_each.h and Array3D.h are header-only (loadRAW/mmapRAW are not used)
     variants=[dict(name="asan", flavour="asan")],
+    floor={"asan:multislice_views": 50, "asan:multislice_thick_or_view_slices": 100},
     assumptions=["128-bit reference index arithmetic in harness/c17_index.cpp is correct",
                  "extents whose true product exceeds 2^62 are outside the quantifier (the 64-bit result cannot hold them)",
                  "adaptors are read at valid coordinates only (their contract); clamping is asserted for ActualArray3D and, "
-                 "because it follows from their definition, for Accessor and MultiSlice over ActualArray3D",
+                 "because it follows from their definition, for Accessor and MultiSlice over ActualArray3D; MultiSlice is also "
+                 "driven over slices thicker than one layer and over non-clamping SubBox views (only layer 0 may be read)",
                  "IndexShifted is driven with shift >= -size per axis (w + size + shift stays non-negative)",
                  "Array3DRepeater is judged against its definition in the code (modulo its OWN repeatedSize, then the "
                  "underlying clamped get); the property statement does not name it"],
